@@ -45,7 +45,9 @@ func (s *Service) BeaconBlockRoot(ctx context.Context,
 	// We create a cancelable context with a timeout.  When a provider responds we cancel the context to cancel the other requests.
 	ctx, cancel := context.WithTimeout(ctx, s.timeout)
 
-	respCh := make(chan *api.Response[*phase0.Root], 1)
+	// Every provider can send its response without waiting for a receiver: only the first
+	// response is read, and the goroutines of the other providers must be able to finish.
+	respCh := make(chan *api.Response[*phase0.Root], len(s.beaconBlockRootProviders))
 	for name, provider := range s.beaconBlockRootProviders {
 		go func(ctx context.Context,
 			name string,
